@@ -14,6 +14,13 @@ Here the stage results are COMPUTED from the input texts of a project by the sta
 and `check_impl` compose the real stages.  Every theorem is for ALL projects (any number of files, any texts, any
 command list) and ALL environments `E` — in particular for every pair of parsers (functions `file index → text →
 document | error`): the parsers' own correctness is C07 / C08 and is not used.
+
+CONCRETE in `stagesOf`: `ExtResolve.resolve`, `CheckTs.checkSchema`, `Imports.resolveExt`, `Imports.resolve`,
+`CheckOp.checkOp`, the built-in definitions and the glue.  ABSTRACT (`Env`): the two parsers, `resolve_relative_path`
+(`res`), the name coding, `pathPos`, the tag tables.  INPUTS no stage model computes (`Project`): command list, generate
+options, `ScalarTypeNotProvided`, the results of the writes.  Hypotheses that are nowhere discharged for the real code:
+`ParserStamps`, "no empty selection set" of the parsers, C03's `SchemaValid`, `TsSpecValid` and C04's decidable side
+conditions.  What stays OPEN (carried by K/O only) is listed in the OPEN block at the end of `Props/C18.lean`.
 -/
 namespace NitroVerif.CliComposed
 open NitroVerif NitroVerif.Gql NitroVerif.Cli
